@@ -14,7 +14,7 @@ def obligations(tier):
 
 
 EXPLANATION = 'C15: dynamic reader registration (memb/mb/qsbr); bp arena not covered'
-OUTSIDE = 'bp flavor (lazy registration, arena growth, slot reuse, signal blocking during registration) is not encoded: urcu-bp.c needs mmap/mremap models that were not built; >1 dynamic reader'
+OUTSIDE = 'bp flavor (lazy registration, arena growth, slot reuse, signal blocking during registration): encoded (mmap model, typed arena chunk) but the solver exhausted 24 GB on updater-vs-reader, so no bp obligation is registered; >1 dynamic reader'
 ASSUMPTIONS = ['as C01/C02']
 LEVEL_TEXT = 'Bounded model checking of register/unregister racing the two registry scans of synchronize_rcu with the C01/C02 oracles and registry well-formedness at quiescence.'
 LEVEL_NOTE = 'Trusted: as C01.'
